@@ -51,4 +51,71 @@ def load (fs : FS) : Nat → List Nat → Nat → Res
 /-- `Loader.Load` of root file `r` in a tree of `n` files -/
 def loadRoot (fs : FS) (n r : Nat) : Res := load fs (n + 1) [] r
 
+/-! ## Directory imports
+
+An import entry is a file or a directory.  `loadDir` lists the `*.yaml` entries of the directory
+(`filepath.Glob`: sorted) and, for each one, skips it if it is already in the visited set and loads it
+otherwise, failing on the first that cannot be loaded - the same loop as the one over a file's own
+imports.  (A directory is never put in the visited set itself; an entry with nothing behind it - a
+dangling link - is a file with status `missing`.) -/
+
+inductive Entry
+  | file (f : Nat)
+  | dir (yamlFiles : List Nat)
+deriving Repr
+
+structure FSD where
+  entries : Nat → List Entry
+  status  : Nat → FStatus
+
+/-- the loop of `loadDir` -/
+def loadDirD (ld : List Nat → Nat → Res) : List Nat → List Nat → Res
+  | vis, [] => .ok vis []
+  | vis, v :: rest =>
+    if v ∈ vis then loadDirD ld vis rest
+    else match ld vis v with
+      | .ok vis' c =>
+        match loadDirD ld vis' rest with
+        | .ok vis'' c' => .ok vis'' (c ++ c')
+        | r => r
+      | r => r
+
+/-- the loop over the `import` list of a file, with both kinds of entries -/
+def loadListD (ld : List Nat → Nat → Res) : List Nat → List Entry → Res
+  | vis, [] => .ok vis []
+  | vis, .file v :: rest =>
+    if v ∈ vis then loadListD ld vis rest
+    else match ld vis v with
+      | .ok vis' c =>
+        match loadListD ld vis' rest with
+        | .ok vis'' c' => .ok vis'' (c ++ c')
+        | r => r
+      | r => r
+  | vis, .dir fs :: rest =>
+    match loadDirD ld vis fs with
+    | .ok vis' c =>
+      match loadListD ld vis' rest with
+      | .ok vis'' c' => .ok vis'' (c ++ c')
+      | r => r
+    | r => r
+
+def loadD (fs : FSD) : Nat → List Nat → Nat → Res
+  | 0, _, _ => .outOfFuel
+  | fuel+1, vis, f =>
+    match fs.status f with
+    | .ok =>
+      match loadListD (loadD fs fuel) (f :: vis) (fs.entries f) with
+      | .ok vis' c => .ok vis' (f :: c)
+      | r => r
+    | _ => .err
+
+/-- a directory entry written out as the files it stands for -/
+def expand : List Entry → List Nat
+  | [] => []
+  | .file f :: rest => f :: expand rest
+  | .dir fs :: rest => fs ++ expand rest
+
+/-- the same tree with every directory import written out -/
+def FSD.flat (fs : FSD) : FS := { imports := fun f => expand (fs.entries f), status := fs.status }
+
 end Imports
